@@ -1,9 +1,9 @@
 //@ fn PayloadHistory::serial
 //@ spec
     ensures res == self.cur(),
-//@ closure 1
+//@ closure map 1 optional
 |delta: &Arc<PayloadDelta>| -> (r: Serial) ensures r == delta.serial_spec()
-//@ closure 2
+//@ closure unwrap_or_else 1 optional
 || -> (r: Serial) ensures r == Serial(0u32)
 //@ fn PayloadHistory::rtr_session
 //@ spec
